@@ -212,9 +212,82 @@ fn skip_one<T: SkipElem>(cfg: &Cfg, rep: &mut Report, rng: &mut Lcg) where T::No
     }
 }
 
+/// quantile_axis_skipnan_mut against the *plain* quantile routine of the crate on the lane with the missing
+/// values deleted, for all five strategies (Midpoint / Linear exercise the arithmetic of the not-NaN wrapper types)
+trait SkipQ: MaybeNan + Clone + std::fmt::Debug + PartialEq + 'static
+where Self::NotNan: Ord + Clone + num_traits::NumOps + num_traits::FromPrimitive + num_traits::ToPrimitive {
+    type Inner: Ord + Clone + std::fmt::Debug + num_traits::NumOps + num_traits::FromPrimitive + num_traits::ToPrimitive;
+    const NAME: &'static str;
+    fn alpha() -> Vec<Self>;
+    fn inner(&self) -> Option<Self::Inner>;
+    fn wrap(x: Option<Self::Inner>) -> Self;
+}
+impl SkipQ for Option<noisy_float::types::N64> {
+    type Inner = noisy_float::types::N64; const NAME: &'static str = "Option<N64>";
+    fn alpha() -> Vec<Self> { vec![None, Some(n64(0.5)), Some(n64(1.5)), Some(n64(2.25)), Some(n64(-7.125))] }
+    fn inner(&self) -> Option<Self::Inner> { *self }
+    fn wrap(x: Option<Self::Inner>) -> Self { x }
+}
+impl SkipQ for Option<i128> {
+    type Inner = i128; const NAME: &'static str = "Option<i128>";
+    fn alpha() -> Vec<Self> { vec![None, Some(3), Some(-(1i128 << 70)), Some((1i128 << 70) + 4), Some(10)] }
+    fn inner(&self) -> Option<Self::Inner> { *self }
+    fn wrap(x: Option<Self::Inner>) -> Self { x }
+}
+impl SkipQ for Option<i32> {
+    type Inner = i32; const NAME: &'static str = "Option<i32>";
+    fn alpha() -> Vec<Self> { vec![None, Some(3), Some(-20), Some(1000), Some(10)] }
+    fn inner(&self) -> Option<Self::Inner> { *self }
+    fn wrap(x: Option<Self::Inner>) -> Self { x }
+}
+impl SkipQ for f64 {
+    type Inner = noisy_float::types::N64; const NAME: &'static str = "f64";
+    fn alpha() -> Vec<Self> { vec![f64::NAN, 0.5, 1.5, 2.25, -7.125] }
+    fn inner(&self) -> Option<Self::Inner> { if self.is_nan() { None } else { Some(n64(*self)) } }
+    fn wrap(x: Option<Self::Inner>) -> Self { match x { None => f64::NAN, Some(v) => v.raw() } }
+}
+
+fn skipq_one<T: SkipQ>(cfg: &Cfg, rep: &mut Report, maxn: usize)
+where T::NotNan: Ord + Clone + num_traits::NumOps + num_traits::FromPrimitive + num_traits::ToPrimitive {
+    use ndarray_stats::Quantile1dExt;
+    let al = T::alpha();
+    for n in 1..=maxn {
+        for_all_arrays(n, al.len(), |pat| {
+            let lane: Vec<T> = pat.iter().map(|k| al[*k as usize].clone()).collect();
+            let filtered: Vec<T::Inner> = lane.iter().filter_map(|x| x.inner()).collect();
+            for q in [0.0, 0.25, 0.3, 0.5, 0.77, 1.0] {
+                let case = format!("skipnan;quantile;{};lane={:?};q={}", T::NAME, lane, q);
+                if !rep.want(cfg, &case) { continue; }
+                macro_rules! one { ($strat:expr, $nm:expr) => {{
+                    let want: Result<T, String> = if filtered.is_empty() { Ok(T::wrap(None)) } else {
+                        let mut f = Array1::from(filtered.clone());
+                        match guarded(|| f.quantile_mut(n64(q), &$strat)) { Ok(Ok(v)) => Ok(T::wrap(Some(v))), other => Err(format!("plain routine: {:?}", other.map(|r| r.map(|_| ())))) }
+                    };
+                    let mut a = Array1::from(lane.clone());
+                    let got = guarded(|| a.quantile_axis_skipnan_mut(Axis(0), n64(q), &$strat));
+                    match (want, got) {
+                        (Ok(w), Ok(Ok(g))) => { let g0 = g.into_scalar(); let same = g0 == w || (g0.is_nan() && w.is_nan()); if !same { rep.fail_p(cfg, &case, "C14", "quantile_axis_skipnan_mut differs from the plain quantile of the filtered lane", json!({"strategy": $nm, "got": format!("{:?}", g0), "plain": format!("{:?}", w)})); } }
+                        (Ok(w), other) => rep.fail_p(cfg, &case, "C14", "quantile_axis_skipnan_mut fails where the plain quantile of the filtered lane succeeds", json!({"strategy": $nm, "plain": format!("{:?}", w), "got": format!("{:?}", other.map(|r| r.map(|_| ())))})),
+                        (Err(_), _) => {} // the plain operation itself fails on this lane (recorded findings of C01): nothing to compare
+                    }
+                }}}
+                one!(Lower, "Lower"); one!(Higher, "Higher"); one!(Nearest, "Nearest"); one!(Midpoint, "Midpoint"); one!(Linear, "Linear");
+                rep.eval(&case, n >= 2 && filtered.len() < n);
+            }
+            !rep.stop
+        });
+    }
+}
+
 /// C14: skip-NaN operations equal the plain operation on the filtered data
 pub fn skipnan(cfg: &mut Cfg, rep: &mut Report) {
-    rep.bound = "f64 over {NaN,-2,0,5} and Option<i32> over {None,-2,0,5}: every content for arrays of <= 4 elements (sampled above), 1-D..3-D incl. empty, layouts C/F/stepped, every axis; quantiles q in {0,.3,.5,1} x {Lower,Higher,Nearest}".to_string();
+    let maxn = if cfg.thorough { 4 } else { 3 };
+    skipq_one::<Option<noisy_float::types::N64>>(cfg, rep, maxn);
+    skipq_one::<Option<i128>>(cfg, rep, maxn);
+    skipq_one::<Option<i32>>(cfg, rep, maxn);
+    skipq_one::<f64>(cfg, rep, maxn);
+
+    rep.bound = "f64 over {NaN,-2,0,5} and Option<i32> over {None,-2,0,5}: every content for arrays of <= 4 elements (sampled above), 1-D..3-D incl. empty, layouts C/F/stepped, every axis; quantiles q in {0,.3,.5,1} x {Lower,Higher,Nearest}; plus 1-D lanes of length <= 3 (4 thorough) over 5-letter alphabets of Option<N64> (non-integral), Option<i128> (beyond 64 bit), Option<i32>, f64: all five strategies at 6 q values against the plain quantile routine of the crate on the filtered lane".to_string();
     let mut rng = Lcg(cfg.seed + 3);
     skip_one::<f64>(cfg, rep, &mut rng);
     skip_one::<Option<i32>>(cfg, rep, &mut rng);
